@@ -45,6 +45,7 @@ static const char *SD[] = {"EAST", "SOUTH", "WEST", "NORTH", "RIGHT", "DOWN", "L
 static const char *CD[] = {"EAST", "SOUTH", "WEST", "NORTH"};
 
 // transform index: 0 = identity, 1.. = the C++ enum value + 1
+static std::string oneTok(std::string t) { for (auto &c : t) if (c == ' ' || c == '\n') c = '_'; return t.substr(0, 120); }
 static void applyTf(SepPair &sp, int t) { if (t > 0) sp.transform((SepTransform)(t - 1)); }
 static bool swapsAxes(int t) { return t == 1 || t == 2 || t == 6 || t == 7; }
 
@@ -470,7 +471,7 @@ static void tglfCase(long k, uint64_t seed, bool fine) {
     vh::beginCase(k, fine ? "tglf-fine" : "tglf");
     Graph G;
     int n = r.range(2, 6);
-    int extMode = r.range(0, 2);     // 0: no external ids, write internal; 1: all set; 2: some set
+    int extMode = r.range(0, 3);     // 0: no external ids, write internal; 1: all set; 2: some set; 3: some set, NEAR the internal ids
     bool useExt = extMode != 0;
     vector<Node_SP> nodes;
     std::set<unsigned> usedExt;
@@ -483,9 +484,18 @@ static void tglfCase(long k, uint64_t seed, bool fine) {
     for (int i = 0; i < n; ++i) {
         double cx = coord(), cy = coord(), w = dim(), h = dim();
         int ext = -1;
-        if (extMode == 1 || (extMode == 2 && r.coin())) { do { ext = r.range(0, 60); } while (usedExt.count(ext)); usedExt.insert(ext); }
-        printf("node %d %d %s %s %s %s\n", i, ext, hxs(cx), hxs(cy), hxs(w), hxs(h));
         Node_SP u = Node::allocate(cx, cy, w, h);
+        if (extMode == 1 || (extMode == 2 && r.coin())) { do { ext = r.range(0, 60); } while (usedExt.count(ext)); usedExt.insert(ext); }
+        // internal ids come from a process-wide counter, so fixed small external ids are soon far below them: mode 3
+        // draws the external ids around the internal ids of this graph's own nodes (u->id() - 3 .. + n + 2), which is
+        // what a file numbered 0..k with a few nodes added later looks like (ids tie, interleave, or sit just above)
+        if (extMode == 3 && r.coin(2, 3)) {
+            int tries = 0;
+            do { ext = (int) u->id() - 3 + (int) r.range(0, n + 5); if (ext < 0) ext = 0; } while (usedExt.count(ext) && ++tries < 20);
+            if (usedExt.count(ext)) ext = -1; else usedExt.insert(ext);
+        }
+        printf("node %d %d %s %s %s %s\n", i, ext, hxs(cx), hxs(cy), hxs(w), hxs(h));
+        printf("nid %d %u\n", i, u->id());
         if (ext >= 0) u->setExternalId((unsigned)ext);
         G.addNode(u);
         nodes.push_back(u);
@@ -593,7 +603,9 @@ static void tglfCase(long k, uint64_t seed, bool fine) {
     }
     fflush(stdout);
     // read back
-    Graph_SP H = buildGraphFromTglf(text);
+    Graph_SP H;
+    try { H = buildGraphFromTglf(text); }
+    catch (std::runtime_error &e) { printf("readback THROW %s\n", oneTok(e.what()).c_str()); vh::endCase(); return; }
     std::map<unsigned, unsigned> id2index2;
     {
         int i = 0;
